@@ -308,7 +308,7 @@ def finding_key(prop, spec, kind, U=None):
     return key
 
 
-def gen_case(ctx, spec, rng, sizes=(4, 11), endgame=False, colddup=False):
+def gen_case(ctx, spec, rng, sizes=(4, 11), endgame=False, colddup=False, dense=False):
     nrs = np.random.RandomState(rng.randrange(2**31 - 1))
     n = rng.randint(*sizes)
     flavour = rng.choice(FLAVOURS)
@@ -324,6 +324,11 @@ def gen_case(ctx, spec, rng, sizes=(4, 11), endgame=False, colddup=False):
         # several times, a batch of a few samples -- normalisations hit their extremes at *several* candidates (seed R10G02)
         flavour = "duplicates"
         n_lab = rng.choice([0, 0, 1, 2])
+    if dense:
+        # late in a run on a large, dense pool: a couple of hundred labeled samples on top of each other (kernel frequency
+        # sums in the hundreds: closed forms with gamma / factorials / exponentials leave the floating-point range; seed R12I02)
+        flavour = rng.choice(["all_equal", "all_equal", "all_equal", "duplicates", "grid"])
+        n_lab = n - rng.randint(3, 8)
     data = make_data(nrs, n, spec.kind, flavour, n_labeled=n_lab, classes=spec.classes or (0, 1, 2))
     modes = ["none", "idx"] + (["rows"] if spec.rows else [])
     mode = rng.choice(modes)
@@ -342,6 +347,8 @@ def gen_case(ctx, spec, rng, sizes=(4, 11), endgame=False, colddup=False):
         b = rng.choice([max(1, len(cs) - 2), max(1, len(cs) - 1), len(cs), len(cs) + 1])
     if colddup:
         b = rng.choice([2, 3, 4])
+    if dense:
+        b = rng.choice([1, 2, len(cs)])
     seed = rng.randrange(10**6)
     return dict(spec=spec.name, n=n, flavour=flavour, mode=mode, b=int(b), seed=seed, X=data["X"], y=data["y"],
                 candidates=cand), data, cand, cs, ncols
@@ -573,7 +580,7 @@ def finish_lines(ctx, lines, checks):
             ctx.disagree(f"{what}: SkaModel.Core.Pool vs implementation", dict(case, line=line[:2000]), out[:2000], impl[:2000])
 
 
-def explore(ctx, prop, per_spec, sizes=(4, 11), only=None, endgame=False, skeleton=None, colddup=False):
+def explore(ctx, prop, per_spec, sizes=(4, 11), only=None, endgame=False, skeleton=None, colddup=False, dense=False):
     rng = ctx.rng
     lines, checks = [], []
     for spec in pool_specs():
@@ -584,7 +591,9 @@ def explore(ctx, prop, per_spec, sizes=(4, 11), only=None, endgame=False, skelet
         done = tries = 0
         while done < per_spec and tries < per_spec * 3:
             tries += 1
-            g = gen_case(ctx, spec, rng, sizes, endgame=endgame, colddup=colddup)
+            g = gen_case(ctx, spec, rng, sizes, endgame=endgame, colddup=colddup, dense=dense)
+            if dense:
+                ctx.count("dense_large_pool_regime_cases")
             if endgame:
                 ctx.count("endgame_regime_cases")
             if colddup:
